@@ -13,7 +13,7 @@ RESOLVE_NOTE = ("Trusted: Coq 8.16.1 kernel + vm_compute; the correspondence har
 
 
 def resolve_prop(cmd, seed, rule, level_text, extra_dirs=(), assumptions=()):
-    return {"cmd": cmd, "seed": seed, "gentie": 0, "coq_dirs": RESOLVE_DIRS + list(extra_dirs) + ["Props/" + cmd.upper()],
+    return {"cmd": cmd, "seed": seed, "gentie": 0, "corr": ["Resolve", "Window", "Intake", "MetaOps"], "coq_dirs": RESOLVE_DIRS + list(extra_dirs) + ["Props/" + cmd.upper()],
             "rule": rule, "trusted_base": RESOLVE_TB, "assumptions": list(assumptions),
             "level_text": level_text, "level_note": RESOLVE_NOTE,
             "technique": "Coq proof over an executable model of processor.Resolve/operationapplier.Apply (induction over chains and "
@@ -26,7 +26,7 @@ BATCH_NOTE = ("Trusted: Coq kernel + vm_compute; harness (mutation engine, view 
               "C10/C18), absence of Go panics is observed (recover) not proved.")
 
 NOT_APPLICABLE = []
-HOOK_COMMITS = ["339701f"]
+HOOK_COMMITS = ["339701f", "1083a8c"]
 
 
 PROPS = {
@@ -63,8 +63,31 @@ PROPS = {
         "optionally with an escape operation; must terminate (20 s bound) and equal the model; plus Parse(batch=false) over every pairing "
         "of revealed key and next commitments x both hash algorithms for update, recover and create",
         "Theorems: intake acceptance implies next commitment is not that of the revealed key and create/recover commitments differ (and the rule rejects nothing else); an applied operation never commits to the commitment it consumes nor to one consumed earlier in the chain; consumed commitments are pairwise distinct; resolution terminates. Cyclic histories and all key pairings through the real parser."),
+    "C09": {
+        "cmd": "c09", "seed": 109, "gentie": 0, "corr": ["Jws"], "coq_dirs": ["Jws", "Hash", "Corr/Jws", "Props/C09"],
+        "rule": "real keys of the five types; JWS built independently of the library (own base64url/compact code, raw r||s) and by the "
+                "library's signing utilities; verified under the matching key, every other key and malformed variants of the JWK "
+                "(unknown/empty/lower-case kty, unknown/other curve, short/long/missing coordinates, off-curve, swapped); every n-th "
+                "byte of decoded header, payload and signature altered, truncated/extended/zero/empty/doubled signatures, the ECDSA twin "
+                "(r, n-s); header spellings (unsorted, whitespace, b64 true/false/non-bool, escaped, missing alg, array, null, duplicate "
+                "members); malformed compact strings incl. Go's lenient base64 cases; run under recover; verdict compared with the "
+                "model, whose crypto fact is evaluated with Go's crypto packages directly on the model's signing input; non-trivial = "
+                "not the plain genuine case; oracles on the implementation: genuine accepted, altered/foreign rejected, no panic",
+        "trusted_base": ["modelled, not verified (oracles): ECDSA/EdDSA verification and curve arithmetic, go-jose JSON and JWK decoding"],
+        "assumptions": ["the signature primitives are correct and unforgeable (never a premise of a theorem: statements reduce acceptance "
+                        "to the primitive's verdict on the exact signing input)"],
+        "level_text": "Theorems: acceptance implies the primitive verified the signature over exactly b64(re-serialised header).b64(payload) "
+                      "under a JWK that decoded, with fixed signature size per curve; the signing input determines header and payload "
+                      "(injectivity via base64 round trip, '.' not in the alphabet); compact build/parse round trip; sign-then-verify; "
+                      "rejection of every malformed class. Partial: the primitives themselves are exercised (tamper enumeration, foreign "
+                      "keys, twin), not proved.",
+        "level_note": "Trusted: Coq kernel + vm_compute; harness incl. its own JWS builder and direct use of Go crypto for the crypto fact; "
+                      "hook pkg/verifhooks (build tag verif).",
+        "technique": "Coq proof over a model of compact JWS parsing / signing input / verification dispatch + vm_compute correspondence "
+                     "with tamper enumeration on real keys",
+    },
     "C13": {
-        "cmd": "c13", "seed": 113, "gentie": 0, "coq_dirs": ["Batch", "Corr/Batch", "Props/C13"],
+        "cmd": "c13", "seed": 113, "gentie": 0, "corr": ["Batch"], "coq_dirs": ["Batch", "Corr/Batch", "Props/C13"],
         "rule": "batches of 1-12 client-built operations over 6 DIDs (all four types, anchor origins of every JSON kind, repeated "
                 "suffixes frequent, expired operations via the time validator; shapes: single, deactivate-only, update-only, maximum "
                 "size, random mix) through the real OperationHandler over a CAS and back through the real OperationProvider; oracle on "
@@ -81,7 +104,7 @@ PROPS = {
                      "handler and provider + read-back oracle on the implementation",
     },
     "C14": {
-        "cmd": "c14", "seed": 114, "gentie": 0, "coq_dirs": ["Batch", "Corr/Batch", "GenTie/Provider", "Props/C14"],
+        "cmd": "c14", "seed": 114, "gentie": 0, "corr": ["Batch"], "coq_dirs": ["Batch", "Corr/Batch", "GenTie/Provider", "Props/C14"],
         "rule": "valid file sets written by the real handler, then 0-3 count-consistent mutations out of ~140 (drop/duplicate/null/swap/"
                 "empty entries of every list, missing/dangling/superfluous/ill-typed references, operations null/ill-typed, transport: "
                 "uncompressed, padded beyond raw or decompressed limit and exactly at it, flipped bytes, read failure, over-long and "
@@ -100,7 +123,7 @@ PROPS = {
                      "correspondence on mutated file sets",
     },
     "C15": {
-        "cmd": "c15", "seed": 115, "gentie": 0, "coq_dirs": ["Batch", "Corr/Txn", "Props/C15"],
+        "cmd": "c15", "seed": 115, "gentie": 0, "corr": ["Txn", "Batch"], "coq_dirs": ["Batch", "Corr/Txn", "Props/C15"],
         "rule": "sequences of 1-5 transactions (valid, unreadable, malformed anchor, count mismatch, duplicate suffixes in the provider's "
                 "answer, unknown namespace, no protocol version, store Put failure, unpublished-store delete failure) processed both by "
                 "direct TxnProcessor.Process calls and through a started Observer; store content and results compared with the model; "
@@ -117,7 +140,7 @@ PROPS = {
         "technique": "Coq proof (store effect, isolation, intake no-trace) + vm_compute correspondence with fault injection + stamp oracle",
     },
     "C16": {
-        "cmd": "c16", "seed": 116, "gentie": 0,
+        "cmd": "c16", "seed": 116, "gentie": 0, "corr": ["Writer"],
         "coq_dirs": ["Writer", "Corr/Writer", "GenTie/Cutter", "Props/C16"],
         "rule": "schedules of 1-7 ticks (monitor / batch timeout) driven through Writer.VerifStep with client Adds between ticks and "
                 "immediately before the k-th queue call of a tick (wrapper around the real MemQueue), CAS write failures at the k-th "
@@ -140,7 +163,7 @@ PROPS = {
                      "the real Writer/Cutter/MemQueue/Handler + oracles on the anchor log",
     },
     "C05": {
-        "cmd": "c05", "seed": 5, "gentie": 0,
+        "cmd": "c05", "seed": 5, "gentie": 0, "corr": ["Resolve", "Window"],
         "level_text": "Window function, default bound (anchorFrom + MaxOperationTimeDelta), inclusiveness, parameter independence and the out-of-window effect per operation type are Coq theorems for all (from, until, anchor, protocol); the window kernels of applier and parser are re-translated from the Go source on every run and proved equal to the model; the boundary sweep ties the rest of the model to the code.",
         "level_note": RESOLVE_NOTE + " Times below 2^62.",
         "technique": "Coq proof (window arithmetic, Apply effects) + source-regenerated kernels (go2v/GenTie) + vm_compute correspondence on a boundary sweep + configuration-independence oracle on the code",
